@@ -10,6 +10,22 @@ AIO = "py_gql.execution.runtime.asyncio"
 WRAP = "py_gql.execution.wrappers"
 
 
+def refuses_when_true(test):
+    """Does the guard refuse when its test is TRUE?  `x != want`, `len(..) != 1`, `y is None`, `not isinstance(..)` do; their
+    accepting spellings (`==`, `is not None`, `isinstance(..)`) refuse when false - whichever branch the raise is written in."""
+    neg = False
+    while isinstance(test, ast.UnaryOp) and isinstance(test.op, ast.Not):
+        test, neg = test.operand, not neg
+    base = True
+    if isinstance(test, ast.Compare) and len(test.ops) == 1:
+        base = isinstance(test.ops[0], (ast.NotEq, ast.Is)) if not isinstance(test.ops[0], ast.IsNot) else False
+        if isinstance(test.ops[0], ast.Eq):
+            base = False
+    elif isinstance(test, ast.Call) and isinstance(test.func, ast.Name) and test.func.id == "isinstance":
+        base = False
+    return base != neg
+
+
 def check(prog, run):
     from . import c08 as _c08
     _c08.check_gather_bookkeeping(prog, run, "S7")   # = C08.R6: an event's list entries resolved under asyncio come back in their own slots
@@ -34,11 +50,7 @@ def check(prog, run):
             t = gcn.text(test)      # canonical: locals such as `fields` are replaced by what they were assigned
             for name, needle in guards.items():
                 if needle(t):
-                    refuse = truth
-                    # `len(fields) == 1` is the accepting spelling of the same test (`!= 1` refuses when true)
-                    if isinstance(test, ast.Compare) and len(test.ops) == 1 and isinstance(test.ops[0], ast.Eq) and "len(" in t:
-                        refuse = not truth
-                    return ("refuse:" if refuse else "pass:") + name
+                    return ("refuse:" if truth == refuses_when_true(test) else "pass:") + name
             return None
 
         def ev(n):
@@ -70,18 +82,14 @@ def check(prog, run):
                 run.report(r, "%s:subscribe:refusal-not-raised(%s)" % (SUB, e[7:]), sub.where(), "the %s refusal branch does not raise" % e[7:])
     # polarity of the two guards: refusing branch must be the one that raises
     for n in own_nodes(sub.node):
-        if isinstance(n, ast.If) and shapes.raises_unconditionally(n.body):
+        if isinstance(n, ast.If) and (shapes.raises_unconditionally(n.body) or (n.orelse and shapes.raises_unconditionally(n.orelse))):
             t = ast.unparse(n.test)
-            if g_sub["operation-kind"](t):
-                r.instance("operation-kind guard `%s`" % t)
-                ok = isinstance(n.test, ast.Compare) and isinstance(n.test.ops[0], ast.NotEq)
-                if not ok:
-                    run.report(r, "%s:subscribe:guard-polarity(operation-kind)" % SUB, sub.where(n), "`%s` refuses the wrong operations" % t)
-            if g_sub["stream-runtime"](t):
-                r.instance("stream-runtime guard `%s`" % t)
-                ok = isinstance(n.test, ast.UnaryOp) and isinstance(n.test.op, ast.Not)
-                if not ok:
-                    run.report(r, "%s:subscribe:guard-polarity(stream-runtime)" % SUB, sub.where(n), "`%s` refuses the wrong runtimes" % t)
+            raise_in_body = shapes.raises_unconditionally(n.body)
+            for gname, what in (("operation-kind", "operations"), ("stream-runtime", "runtimes")):
+                if g_sub[gname](t):
+                    r.instance("%s guard `%s` (raises in the %s branch)" % (gname, t, "true" if raise_in_body else "false"))
+                    if refuses_when_true(n.test) != raise_in_body:
+                        run.report(r, "%s:subscribe:guard-polarity(%s)" % (SUB, gname), sub.where(n), "`%s` refuses the wrong %s" % (t, what))
     g_c = {
         "single-root-field": lambda t: "len(" in t and ".collect_fields(" in t,
         "subscription-resolver": lambda t: "subscription_resolver" in t and "None" in t,
